@@ -84,7 +84,7 @@ def run_case(case, drv):
         except Exception as e:  # noqa
             impl = (core.err_kind(e), repr(e))
         head, groups = core.split_reply(drv.ask(f"{cmd} {fmat(M, r, c)}"))
-        if head != impl[0]:
+        if core.err_class(head) != core.err_class(impl[0]):
             res.disagree(f"{cmd} status", impl, head)
             if case["mode"] == "square" and impl[0] != "ok":
                 res.fail(f"{sig}:raises", f"{fn.__name__} raised on square {kind} input: {impl[1]}")
@@ -113,7 +113,7 @@ def run_case(case, drv):
     except Exception as e:  # noqa
         impl = (core.err_kind(e), repr(e))
     head, groups = core.split_reply(drv.ask(f"container {fmat(M, r, c)} {fs(const)} {pathex}"))
-    if head != impl[0]:
+    if core.err_class(head) != core.err_class(impl[0]):
         res.disagree("container status", impl, head)
         if case["mode"] == "square" and impl[0] != "ok":
             res.fail("container:raises", f"QUBOContainer raised on square {kind} input, pattern {pat!r}: {impl[1]}")
